@@ -27,6 +27,13 @@ func genC12(r *Rng, tier string, o *Out) {
 	for i := 0; i < ngrp; i++ {
 		c12Group(r, o)
 	}
+	nroach := 3 // the unwrappers as the ROACH source wires them: a real RoachDevice on a loopback UDP port
+	if tier == "thorough" {
+		nroach = 12
+	}
+	for i := 0; i < nroach; i++ {
+		c12Roach(r, i, i == 0, o)
+	}
 	for i := 0; i < n; i++ {
 		long := i < nlong
 		// parameter sets: the two real ones (Abaco 16/4, ROACH 14/2) plus any valid one
